@@ -17,6 +17,7 @@ package main
 import (
 	"bytes"
 	"context"
+	"encoding/binary"
 	"encoding/hex"
 	"encoding/json"
 	"fmt"
@@ -45,7 +46,9 @@ func init() {
 		"histories of file operations (write/touch with explicit mtimes, delete, move between directories, rename, rmdir) and CLI invocations " +
 		"(run, --force, --dry, --status, --list-all --json, --list-all, --summary; --yes or declined prompt; a command failing at position k; " +
 		"a command that is a `task:` call of a helper with a `test -f` precondition, failing — also under --dry — while the file is missing; " +
-		"SIGKILL at a command boundary); non-trivial = history with at least one skip, failure, kill or declined prompt; distinct by case"
+		"SIGKILL at a command boundary); c04: twin tasks with the same display name (equal labels, a label equal to the other's name) run one after the other; " +
+		"c05: boundary-shift pairs (a rename plus an edit that moves bytes between a file's name and the content next to it, also across two adjacent files) " +
+		"between two runs; non-trivial = history with at least one skip, failure, kill or declined prompt; distinct by case"
 	domains["fingerhist-c04"] = domain{func(c *Ctx) { runFingerHist(c, "c04") }, rule}
 	domains["fingerhist-c05"] = domain{func(c *Ctx) { runFingerHist(c, "c05") }, rule}
 	domains["fingerhist-c12"] = domain{func(c *Ctx) { runFingerHist(c, "c12") }, rule}
@@ -299,8 +302,9 @@ const fhEpoch = int64(1_000_000_000) // logical time 0 = 2001-09-09; every expli
 
 type fhAttempt struct {
 	task  int
-	fp    string // hex of the stream the code hashes (names relative to the task dir + contents)
+	fp    string // hex of what the code hashes: the stream (names relative to the task dir + contents) and its length table
 	ideal string // relative paths + contents
+	flat  string // the names and contents back to back (the un-delimited stream)
 	time  int64
 	ok    bool
 	step  int
@@ -316,7 +320,7 @@ type fhRun struct {
 	pid     map[string]int
 	dirs    []string
 	did     map[string]int
-	dict    map[string]string // xxh3 value → hex of the stream hashed
+	dict    map[string]string // stored checksum → hex of the stream and the length table it is the hash of
 	log     []fhAttempt
 	writer  map[string]int // "C"+key / "M"+key → step that last changed it
 	obsExit []string
@@ -686,35 +690,44 @@ func (r *fhRun) render(s fhSnap) string {
 	return strings.Join(out, " ")
 }
 
-func xxhHex(b []byte) string {
+// the checksum the code stores for a stream and its length table (fix F8B): `%x%x` of xxh3-128 of
+// the stream, then `%016x` of xxh3-64 of the table
+func fhChecksum(stream, lens []byte) string {
 	h := xxh3.New()
-	h.Write(b)
+	h.Write(stream)
 	s := h.Sum128()
-	return fmt.Sprintf("%x%x", s.Hi, s.Lo)
+	return fmt.Sprintf("%x%x%016x", s.Hi, s.Lo, xxh3.Hash(lens))
 }
 
 // sourcesNow: the real Globs on the real tree; stream = name + content of each, the name being
 // the slash path relative to the task directory (what the model's `stream (nameOf pr t)` is);
+// lens = the model's `lenTable`: the length of each name and each content, 8 bytes big endian each;
 // ideal = path relative to the project root + content, delimited.
-func (r *fhRun) sourcesNow(t fhTask) (files []string, stream []byte, ideal string) {
+func (r *fhRun) sourcesNow(t fhTask) (files []string, stream, lens []byte, ideal string) {
 	ms, _ := realGlobs(r.taskDirAbs(t), t.Sources)
 	var ib strings.Builder
 	for _, m := range ms {
 		b, _ := os.ReadFile(m)
-		stream = append(stream, []byte(relTo(r.taskDirAbs(t), m))...)
+		name := relTo(r.taskDirAbs(t), m)
+		stream = append(stream, []byte(name)...)
 		stream = append(stream, b...)
+		lens = binary.BigEndian.AppendUint64(lens, uint64(len(name)))
+		lens = binary.BigEndian.AppendUint64(lens, uint64(len(b)))
 		fmt.Fprintf(&ib, "%s\x00%s\x00", relTo(r.root, m), b)
 	}
-	return ms, stream, ib.String()
+	return ms, stream, lens, ib.String()
 }
+
+// what the model stores with both hashes the identity: the stream followed by the length table
+func fhModelFp(stream, lens []byte) string { return hx(string(stream) + string(lens)) }
 
 func (r *fhRun) learnStreams() {
 	for _, t := range r.d.Tasks {
 		if len(t.Sources) == 0 {
 			continue
 		}
-		_, st, _ := r.sourcesNow(t)
-		r.dict[xxhHex(st)] = hx(string(st))
+		_, st, ln, _ := r.sourcesNow(t)
+		r.dict[fhChecksum(st, ln)] = fhModelFp(st, ln)
 	}
 }
 
@@ -751,8 +764,8 @@ func logicalMtime(p string) int64 {
 // goodRun evaluated on the harness's own ghost log (built from observations) and the real tree
 func (r *fhRun) goodRun(i int) (good bool, matched *fhAttempt) {
 	t := r.d.Tasks[i]
-	files, st, _ := r.sourcesNow(t)
-	fp := hx(string(st))
+	files, st, ln, _ := r.sourcesNow(t)
+	fp := fhModelFp(st, ln)
 	switch t.Method {
 	case "", "checksum":
 		for k := len(r.log) - 1; k >= 0; k-- {
@@ -963,10 +976,10 @@ func (r *fhRun) run(only map[int]bool) {
 		t := r.d.Tasks[ti]
 		r.learnStreams()
 		good, matched := r.goodRun(ti)
-		_, stream, ideal := r.sourcesNow(t)
+		_, stream, lens, ideal := r.sourcesNow(t)
 		gens, stat := r.gensOk(t), r.statusOk(t)
 		var newest int64
-		files, _, _ := r.sourcesNow(t)
+		files, _, _, _ := r.sourcesNow(t)
 		for _, f := range files {
 			if m := logicalMtime(f); m > newest {
 				newest = m
@@ -1045,7 +1058,7 @@ func (r *fhRun) run(only map[int]bool) {
 		}
 		facts := func(kind string) string {
 			w, wmode, wexit, wtask, wskip := "-", "-", "-", "-", "0"
-			wk := "C" + fhStateName(fhDisplay(t))
+			wk := "C" + fhSumName(t)
 			if method == "timestamp" {
 				wk = "M" + fhStateName(t.Name)
 			}
@@ -1089,6 +1102,27 @@ func (r *fhRun) run(only map[int]bool) {
 				}
 				r.viol = append(r.viol, fhViol{"c05", k, ti, facts("change-not-detected") + " samebases=" + same})
 			}
+			// the task's commands have been attempted, but never on the present list of (path, content):
+			// whatever was edited, added, removed or renamed since went unnoticed (independent of how the
+			// code encodes the list; `shift=1`: the name+content bytes of the present tree, back to back, are
+			// those of an earlier attempt — the boundary-shift collision of the un-delimited stream)
+			if method == "checksum" && len(t.Sources) > 0 && !good {
+				seen, any, shift := false, false, "0"
+				for _, a := range r.log {
+					if a.task == ti {
+						any = true
+						if a.ideal == ideal {
+							seen = true
+						}
+						if a.flat == string(stream) {
+							shift = "1"
+						}
+					}
+				}
+				if any && !seen {
+					r.viol = append(r.viol, fhViol{"c05", k, ti, facts("change-not-detected") + " samebases=0 shift=" + shift})
+				}
+			}
 		}
 		if s.Mode == "run" && !o.skipped && k > 0 && len(t.Sources) > 0 && method != "none" && gens && (len(t.Status) == 0 || stat) {
 			// idempotence: the previous step was a successful normal run of the same task
@@ -1110,7 +1144,7 @@ func (r *fhRun) run(only map[int]bool) {
 		// ghost log
 		// (a `task:` call whose precondition fails ends the command loop with `failed` before anything ran)
 		if (s.Mode == "run" || s.Mode == "force") && (len(o.ran) > 0 || o.exit == "killed" || o.exit == "failed") {
-			r.log = append(r.log, fhAttempt{task: ti, fp: hx(string(stream)), ideal: ideal, time: s.Now,
+			r.log = append(r.log, fhAttempt{task: ti, fp: fhModelFp(stream, lens), ideal: ideal, flat: string(stream), time: s.Now,
 				ok: o.exit == "ok" && len(o.ran) == len(t.Cmds), step: k, exit: o.exit})
 		}
 		prev = snap
@@ -1135,11 +1169,29 @@ func fhStateName(n string) string {
 	return n
 }
 
-// the MODEL's key for a state file: the model's tag is the name itself (`stateKey`: the hash is
-// idealised as injective), so the file of a name the harness generated — recognised by
-// recomputing xxh3 of every task name and label of the case — is rendered as
-// "<normalised>-<name>"; any other file name (a tree without fix N) is rendered as it is.
+// the harness's own copy of checksumFilename (fix F8A): the checksum file of a task without label is
+// stateFilename(task name); that of a labelled task is the normalised label, ".", and 16 hex digits of
+// xxh3 of the length-prefixed pair "<len(name)>:<name><label>"
+func fhPairEnc(t fhTask) string { return fmt.Sprintf("%d:%s%s", len(t.Name), t.Name, t.Label) }
+
+func fhSumName(t fhTask) string {
+	if t.Label == "" {
+		return fhStateName(t.Name)
+	}
+	return fmt.Sprintf("%s.%016x", fhNorm(t.Label), xxh3.HashString(fhPairEnc(t)))
+}
+
+// the MODEL's key for a state file: the model's tag is the hashed string itself (`stateKey`,
+// `sumKey`: the hash is idealised as injective), so the file of a name the harness generated —
+// recognised by recomputing xxh3 of every task name, label and (name, label) pair of the case — is
+// rendered as "<normalised>-<name>", resp. "<normalised label>.<len>:<name><label>"; any other file
+// name (a tree without fix N / F8A) is rendered as it is.
 func (r *fhRun) modelKey(file string) string {
+	for _, t := range r.d.Tasks {
+		if t.Label != "" && fhSumName(t) == file {
+			return fhNorm(t.Label) + "." + fhPairEnc(t)
+		}
+	}
 	for _, t := range r.d.Tasks {
 		for _, n := range []string{t.Name, t.Label} {
 			if n != "" && fhNorm(n) != n && fhStateName(n) == file {
@@ -1304,8 +1356,114 @@ func (g *fhGen) content() string {
 	return string(b)
 }
 
+// genShift: the BOUNDARY-SHIFT stream (c05).  One checksum task over `d/*`; between two runs a rename
+// plus an edit moves bytes between a file's name and the content next to it, so that names and contents
+// written back to back are the same bytes before and after:
+//
+//	own     file `ab` holding `c`   ⇄  file `a` holding `bc`         (a name ⇄ its own content)
+//	next    files `a`=`x`, `ab`=`y`  ⇄  the single file `a`=`xd/aby`  (a content ⇄ the NEXT file's name)
+//	second  files `a`=`x`, `bc`=`y`  ⇄  files `a`=`x`, `b`=`cy`       (the same, on the second of two files)
+//
+// The second run must execute the commands (the list of (path, content) changed); before fix F8B the
+// checksum was the same and the task was reported up to date.
+func (g *fhGen) genShift() fhCase {
+	rng := g.c.Rng
+	letters := func(n int) string {
+		b := make([]byte, n)
+		for i := range b {
+			b[i] = "abc"[rng.Intn(3)]
+		}
+		return string(b)
+	}
+	t := fhTask{Name: g.pick([]string{"x", "y", "a-b", "a.b", "a_b"}), Sources: []fhGlob{{Glob: "d/*"}}, Cmds: []fhCmd{{}}}
+	if g.chance(40) {
+		t.Method = "checksum"
+	}
+	root := ""
+	if g.chance(30) {
+		t.Dir = "sub"
+		root = "sub/"
+	}
+	if g.chance(20) {
+		t.Label = g.pick([]string{"L", "lab el"})
+	}
+	if g.chance(30) {
+		t.Cmds = append(t.Cmds, fhCmd{Writes: []fhWrite{{Path: root + "out0_1.o", Content: "o"}}})
+	}
+	type tree map[string]string // base name in d/ → content
+	var a, b tree
+	switch rng.Intn(3) {
+	case 0: // own: name n, content c; k bytes move from the end of the name to the front of the content
+		n, c := letters(2+rng.Intn(2)), letters(rng.Intn(3))
+		k := 1 + rng.Intn(len(n)-1)
+		a = tree{n: c}
+		b = tree{n[:len(n)-k]: n[len(n)-k:] + c}
+	case 1: // next: two files against one whose content swallows the second file's name and content
+		n1 := g.pick([]string{"a", "ab"})
+		n2 := n1 + g.pick([]string{"b", "c", "ca"}) // sorts after n1
+		c1, c2 := letters(1+rng.Intn(2)), letters(rng.Intn(3))
+		a = tree{n1: c1, n2: c2}
+		b = tree{n1: c1 + "d/" + n2 + c2}
+	default: // second: an own shift on the second of two adjacent files
+		c1, c2 := letters(1+rng.Intn(2)), letters(1+rng.Intn(2))
+		tail := g.pick([]string{"c", "cb"})
+		a = tree{"a": c1, "b" + tail: c2}
+		b = tree{"a": c1, "b": tail + c2}
+	}
+	if g.chance(50) {
+		a, b = b, a
+	}
+	var d fhCase
+	d.Tasks = []fhTask{t}
+	add := func(st fhStep) {
+		st.Fail, st.Kill = -1, -1
+		switch st.Kind {
+		case "inv":
+			st.Yes, st.Now = true, int64(1000*(len(d.Steps)+1))
+		case "write":
+			st.Mtime = int64(1000*len(d.Steps) + 500)
+		}
+		d.Steps = append(d.Steps, st)
+	}
+	names := func(tr tree) []string {
+		var out []string
+		for n := range tr {
+			out = append(out, n)
+		}
+		sort.Strings(out)
+		return out
+	}
+	put := func(from, to tree) {
+		for _, n := range names(from) {
+			if _, ok := to[n]; !ok {
+				add(fhStep{Kind: "delete", Path: root + "d/" + n})
+			}
+		}
+		for _, n := range names(to) {
+			if c, ok := from[n]; !ok || c != to[n] {
+				add(fhStep{Kind: "write", Path: root + "d/" + n, Content: to[n]})
+			}
+		}
+	}
+	put(tree{}, a)
+	add(fhStep{Kind: "inv", Mode: "run"})
+	put(a, b)
+	add(fhStep{Kind: "inv", Mode: "run"})
+	switch rng.Intn(3) {
+	case 0:
+		put(b, a)
+		add(fhStep{Kind: "inv", Mode: "run"})
+	case 1:
+		add(fhStep{Kind: "inv", Mode: g.pick([]string{"run", "status", "listjson"})})
+	}
+	return d
+}
+
 func (g *fhGen) gen(maxLen int) fhCase {
 	rng := g.c.Rng
+	if g.prop == "c05" && g.chance(8) {
+		return g.genShift()
+	}
 	var d fhCase
 	nt := 1 + rng.Intn(3)
 	if g.chance(45) {
@@ -1320,6 +1478,7 @@ func (g *fhGen) gen(maxLen int) fhCase {
 		pre  string // the file a `task:` call of this task needs
 	}
 	var infos []tinfo
+	twinMade := false
 	for i := 0; i < nt; i++ {
 		var t fhTask
 		for {
@@ -1333,6 +1492,10 @@ func (g *fhGen) gen(maxLen int) fhCase {
 		if g.chance(15) {
 			t.Label = g.pick([]string{"L", "x", "a-b", "lab el"})
 		}
+		// directed stream (c04): the second task is a TWIN of the first — same directory, same sources,
+		// method checksum — and the two have the same display name: equal labels, or the label of one is
+		// the name of the other.  Before fix F8A they shared one checksum file.
+		twin := g.prop == "c04" && i == 1 && len(d.Tasks[0].Sources) > 0 && (d.Tasks[0].Dir == "" || !included) && g.chance(12)
 		switch r := rng.Intn(100); {
 		case r < 45:
 			t.Method = ""
@@ -1350,6 +1513,23 @@ func (g *fhGen) gen(maxLen int) fhCase {
 		if !included && g.chance(dirPct) {
 			t.Dir = g.pick([]string{"sub", "sub2"})
 		}
+		if twin {
+			t0 := &d.Tasks[0]
+			t.Dir = t0.Dir
+			if t0.Method != "checksum" {
+				t0.Method = ""
+			}
+			t.Method = t0.Method
+			switch {
+			case g.chance(50):
+				if t0.Label == "" {
+					t0.Label = g.pick([]string{"L", "a-b", "lab el"})
+				}
+				t.Label = t0.Label
+			default:
+				t0.Label, t.Label = "", t0.Name
+			}
+		}
 		root := ""
 		if t.Dir != "" {
 			root = t.Dir + "/"
@@ -1364,6 +1544,10 @@ func (g *fhGen) gen(maxLen int) fhCase {
 				}
 				t.Sources = append(t.Sources, fhGlob{Glob: p, Neg: len(t.Sources) > 0 && g.chance(35), Tmpl: g.chance(20)})
 			}
+		}
+		if twin {
+			t.Sources = append([]fhGlob(nil), d.Tasks[0].Sources...)
+			twinMade = true
 		}
 		for _, p := range fhSrcPool {
 			if g.chance(60) {
@@ -1408,6 +1592,40 @@ func (g *fhGen) gen(maxLen int) fhCase {
 		}
 		d.Tasks = append(d.Tasks, t)
 		infos = append(infos, info)
+	}
+	// directed history for the twins: sources in place, the first task runs, then the second (which must
+	// NOT be reported up to date: its own commands never ran), an edit, and both again
+	if twinMade && g.chance(60) {
+		t1 := &d.Tasks[1]
+		t1.Generates, t1.Status = nil, nil
+		for k := range t1.Cmds {
+			t1.Cmds[k].Need = ""
+		}
+		add := func(st fhStep) {
+			st.Fail, st.Kill = -1, -1
+			if st.Kind == "inv" {
+				st.Yes, st.Now = true, int64(1000*(len(d.Steps)+1))
+			} else if st.Kind == "write" {
+				st.Mtime = int64(1000*len(d.Steps) + 500)
+			}
+			d.Steps = append(d.Steps, st)
+		}
+		src := g.pick(infos[0].pool)
+		add(fhStep{Kind: "write", Path: src, Content: g.content()})
+		if infos[0].flag != "" {
+			add(fhStep{Kind: "write", Path: infos[0].flag, Content: "f"})
+		}
+		if infos[0].pre != "" {
+			add(fhStep{Kind: "write", Path: infos[0].pre, Content: "p"})
+		}
+		add(fhStep{Kind: "inv", Task: 0, Mode: "run"})
+		add(fhStep{Kind: "inv", Task: 1, Mode: "run"})
+		if g.chance(50) {
+			add(fhStep{Kind: "write", Path: src, Content: g.content() + "y"})
+			add(fhStep{Kind: "inv", Task: rng.Intn(2), Mode: "run"})
+			add(fhStep{Kind: "inv", Task: rng.Intn(2), Mode: g.pick([]string{"run", "status", "listjson"})})
+		}
+		return d
 	}
 	// directed stream: a `task:` call that fails under --dry AFTER the task has stored a fingerprint —
 	// run with the needed file present, remove it, edit a source, --dry (the call fails: nothing may
@@ -1633,6 +1851,14 @@ func runFingerHist(c *Ctx, prop string) {
 			c.Hit("method:" + m)
 			if t.Label != "" {
 				c.Hit("shape:label")
+			}
+			if len(d.Tasks) == 1 && len(t.Sources) == 1 && t.Sources[0].Glob == "d/*" {
+				c.Hit("shape:boundary-shift")
+			}
+			for _, u := range d.Tasks {
+				if u.Name != t.Name && fhDisplay(u) == fhDisplay(t) {
+					c.Hit("shape:equal-display-name")
+				}
 			}
 			if strings.Contains(t.Name, ":") {
 				c.Hit("shape:included")
